@@ -153,7 +153,8 @@ def check_case(case):
 def shard(s):
     acc = core.Acc()
     L, pre = s
-    for seq in spaces.shard_words(ALPHA, L, pre):
+    words = spaces.window_complete_chunks(ALPHA, 4, (L,)) if pre == "DB" else spaces.shard_words(ALPHA, L, pre)
+    for seq in words:
         v, calls = check_case({"kind": "profiles", "seq": seq})
         acc.states += 1
         acc.traces += 1
@@ -180,6 +181,7 @@ def run(tier, seed, t0):
     extra = [(L, pre) for L, pre in [(8, "KEGP"), (9, "PGEKK"), (12, "KKEEGGPPKE")]]
     extra += [(44, ("KEGP" * 11)[:42]), (64, ("KKEGPGEEKP" * 7)[:63]), (131, ("KEGPPGEK" * 17)[:130]),
               (300, ("EK" * 150)[:299]), (301, ("K" * 301)[:300]), (270, ("KKKE" * 70)[:269])]
+    extra += [(21, "DB"), (34, "DB")]
     acc = core.pmap(shard, shards + extra)
     return core.finish(
         PROP, tier, seed, acc, t0,
